@@ -207,7 +207,7 @@ theorem C15_user_prevails (b : Builder) (xid : Bytes) (user : List Modifier) :
     (∀ c, (build b xid (user ++ [.withoutOption c])).opts.get c = none) ∧
     (∀ c v, (build b xid (user ++ [.withGeneric c v])).opts.get c = some v) ∧
     (∀ cs, (build b xid (user ++ [.withRequestedOptions cs])).opts.get optParamList =
-        some (addCodes (paramRequestList (build b xid user)) cs)) :=
+        some ((addCodes (paramRequestList (build b xid user)) cs).map (·.code))) :=
   user_prevails b xid user
 
 /-! ### Non-vacuity: the hypotheses are met by non-trivial values -/
@@ -272,12 +272,14 @@ example : (newReleaseFromAck [9, 9, 9, 9] exOffer exUser).opts.get 53 = some [7]
     (newDiscovery [9, 9, 9, 9] [2, 0, 0, 0, 0, 1] exUser).opts.get 55 = some [1, 3, 15, 6] := by decide
 
 /-- a user modifier that collides with a default prevails: message type,
-merged and de-duplicated parameter request list, removed server identifier -/
+merged parameter request list (3 and the second 42 are dropped as duplicates;
+`GenericOptionCode(1)` is not `==` to `OptionSubnetMask` and is added), removed
+server identifier -/
 example : (newRequestFromOffer [9, 9, 9, 9] exOffer
-      [.withMessageType 4, .withRequestedOptions [3, 42, 42, 1], .withoutOption 54]).opts.get 53 = some [4] ∧
+      [.withMessageType 4, .withRequestedOptions [.named 3, .named 42, .named 42, ⟨true, 1⟩], .withoutOption 54]).opts.get 53 = some [4] ∧
     (newRequestFromOffer [9, 9, 9, 9] exOffer
-      [.withMessageType 4, .withRequestedOptions [3, 42, 42, 1], .withoutOption 54]).opts.get 55 = some [1, 3, 15, 6, 42] ∧
+      [.withMessageType 4, .withRequestedOptions [.named 3, .named 42, .named 42, ⟨true, 1⟩], .withoutOption 54]).opts.get 55 = some [1, 3, 15, 6, 42, 1] ∧
     (newRequestFromOffer [9, 9, 9, 9] exOffer
-      [.withMessageType 4, .withRequestedOptions [3, 42, 42, 1], .withoutOption 54]).opts.get 54 = none := by decide
+      [.withMessageType 4, .withRequestedOptions [.named 3, .named 42, .named 42, ⟨true, 1⟩], .withoutOption 54]).opts.get 54 = none := by decide
 
 end Dhcp.V4
